@@ -29,7 +29,12 @@ import (
 	authtypes "github.com/cosmos/cosmos-sdk/x/auth/types"
 	banktypes "github.com/cosmos/cosmos-sdk/x/bank/types"
 	govv1 "github.com/cosmos/cosmos-sdk/x/gov/types/v1"
+	paramproposal "github.com/cosmos/cosmos-sdk/x/params/types/proposal"
 	gogoproto "github.com/cosmos/gogoproto/proto"
+
+	ibcchanneltypes "github.com/cosmos/ibc-go/v8/modules/core/04-channel/types"
+	evmtypes "github.com/evmos/ethermint/x/evm/types"
+	feemarkettypes "github.com/evmos/ethermint/x/feemarket/types"
 
 	denomtypes "github.com/dymensionxyz/dymension/v3/x/denommetadata/types"
 	dymnstypes "github.com/dymensionxyz/dymension/v3/x/dymns/types"
@@ -395,6 +400,11 @@ func (p *c20Priv) defineKinds() {
 	gov("denommetadata.UpdateDenomMetadataProposal", false, func(p *c20Priv, s sdk.AccAddress, n, _ int) (sdk.Msg, error) {
 		return p.legacy(s, &denomtypes.UpdateDenomMetadataProposal{Title: "t", Description: "d", TokenMetadata: []banktypes.Metadata{c20Meta("avrffix", fmt.Sprintf("d%d", n))}})
 	})
+	// parameter updates of the modules that still use x/params: a legacy ParameterChangeProposal
+	gov("govroute.paramproposal.RouterKey", false, func(p *c20Priv, s sdk.AccAddress, n, _ int) (sdk.Msg, error) {
+		return p.legacy(s, paramproposal.NewParameterChangeProposal("t", "d", []paramproposal.ParamChange{
+			{Subspace: rollapptypes.ModuleName, Key: string(rollapptypes.KeyDisputePeriodInBlocks), Value: fmt.Sprintf("\"%d\"", 100+n)}}))
+	})
 	// ---- owner-only: rollapp
 	ro := func(key string, b bf) { add(&c20PK{key: key, obj: oRollapp, class: "owner", build: b}) }
 	ro("rollapp.MsgUpdateRollappInformation", func(p *c20Priv, s sdk.AccAddress, n, _ int) (sdk.Msg, error) {
@@ -736,7 +746,7 @@ func (p *c20Priv) exec(line string, f []string) string {
 		}
 	}
 	r.Hit("priv/" + k.class + "/" + role + "/" + obs)
-	if derr == nil && isPriv {
+	if derr == nil { // also after a (flagged) success of an unprivileged signer: keep later verdicts accurate
 		for _, mv := range moves {
 			p.owners[mv[0]] = mv[1]
 		}
@@ -771,6 +781,16 @@ func (p *c20Priv) execExt(line string, f []string) string {
 		return "bad-op"
 	}
 	reflect.ValueOf(m).Elem().FieldByName("Authority").SetString(signer.String())
+	// a few external types validate their params before the handler sees the authority: give them
+	// the module's current params so that the authority check is what rejects
+	switch x := m.(type) {
+	case *evmtypes.MsgUpdateParams:
+		x.Params = p.f.App.EvmKeeper.GetParams(p.f.Ctx)
+	case *feemarkettypes.MsgUpdateParams:
+		x.Params = p.f.App.FeeMarketKeeper.GetParams(p.f.Ctx)
+	case *ibcchanneltypes.MsgUpdateParams:
+		x.Params = p.f.App.IBCKeeper.ChannelKeeper.GetParams(p.f.Ctx)
+	}
 	sm, ok := m.(sdk.Msg)
 	if !ok {
 		return "bad-op"
@@ -791,6 +811,11 @@ func (p *c20Priv) execExt(line string, f []string) string {
 		r.Hit("ext/rejected-by-authority-check")
 	} else {
 		r.Hit("ext/rejected-before-authority-check(zero-content)")
+		msg := derr.Error()
+		if len(msg) > 100 {
+			msg = msg[:100]
+		}
+		p.s.ctrlErr["ext:"+f[1]] = msg
 	}
 	p.s.seq = append(p.s.seq, "ext:"+f[1]+":rej")
 	return "rej"
